@@ -488,3 +488,30 @@ def cartesian_quarter_orbits_have_one_member_in_the_domain(i: int, j: int, v: in
         assert n == 1
     else:
         assert n >= 1
+
+
+# ----------------------------------------------------------------------------- the locator-object route (continuation session)
+@lemma(gen={"pitch": (0.05, 40.0), "i": (-40, 40), "j": (-40, 40), "k": (-3, 3)})
+def a_locator_lists_the_equivalents_its_grid_lists_for_its_cell(i: int, j: int, k: int, pitch: float, cornersUp: bool, third: bool):
+    """IndexLocation.getSymmetricEquivalents (what callers holding a spatialLocator use) hands the locator's index
+    ARRAY (i, j, k) to the grid: the result is the grid's answer for the cell (i, j) whatever the axial index - the
+    120 / 240 degree images in a periodic third core (none for the centre cell), none in a full core - and the
+    locator and the grid are left as they were."""
+    assume(pitch > 0)
+    g = hexgrid(pitch, cornersUp, "third periodic" if third else "full")
+    loc = g[i, j, k]
+    eqs = loc.getSymmetricEquivalents()
+    ref = g.getSymmetricEquivalents((i, j))
+    assert len(eqs) == len(ref)
+    if third and not (i == 0 and j == 0):
+        assert len(eqs) == 2
+        assert (eqs[0][0], eqs[0][1]) == (-i - j, i), "120 degrees: (i, j) -> (-i - j, i)"
+        assert (eqs[1][0], eqs[1][1]) == (j, -i - j), "240 degrees: (i, j) -> (j, -i - j)"
+        assert (ref[0][0], ref[0][1], ref[1][0], ref[1][1]) == (eqs[0][0], eqs[0][1], eqs[1][0], eqs[1][1])
+        x, y = xy(g, i, j)
+        x1, y1 = xy(g, eqs[0][0], eqs[0][1])
+        e1 = rot120(x, y)
+        assert eq(x1, e1[0]) and eq(y1, e1[1]), "the first equivalent's centre is this centre turned by 120 degrees"
+    else:
+        assert len(eqs) == 0
+    assert (loc.i, loc.j, loc.k) == (i, j, k) and loc.grid is g and g[i, j, k] is loc
